@@ -108,7 +108,7 @@ class MatcherNF:
         # (self.dialect.<role>_keywords is what the role tables are stated in)
         dcls = I.facts.modules.get("gherkin.dialect").classes.get("Dialect") if I.facts.modules.get("gherkin.dialect") else None
         if dcls is not None:
-            I.types[("attr", ("param", selfname), "dialect")] = dcls
+            I.types[("attr", ("param", selfname), N.DIALECT)] = dcls
             I.opaque_attrs[dcls.qualname] = lambda nm: nm.endswith("_keywords")
         tree, rv, st = I.run(q)
         return tree, rv, st
@@ -176,7 +176,7 @@ def rule_sink(rep: Report, rid_col="C04.col", rid_crlf="C16.crlf", want=("col", 
                expected="[] if items is None else items", found=fmt(v, I) if v else "never set")
         v = ext.get((tok, "matched_gherkin_dialect"))
         rep.ob(rid_col.split(".")[0] + ".sink", "token.matched_gherkin_dialect is the dialect name in force at match time",
-               v == ("attr", ("param", p[0]), "dialect_name"), **kw, expected="self.dialect_name", found=fmt(v, I) if v else "never set")
+               v == ("attr", ("param", p[0]), N.DIALECT_NAME), **kw, expected="self.dialect_name", found=fmt(v, I) if v else "never set")
 
 
 # ---- helper: first-match keyword loops -------------------------------------------------------------
@@ -344,7 +344,7 @@ def rule_roles(rep: Report, rid="C05.roles", rid_text="C03.text", cls_q=MQ, want
         rep.used_file(m.fi.file)
         rep.used_function(m.fi.qualname)
         line, trimmed, raw = line_terms(m)
-        dialect = ("attr", m.selft, "dialect")
+        dialect = ("attr", m.selft, N.DIALECT)
         want_lists = [("attr", dialect, x) for x in lists]
         got_lists = []
         suffix = ":" if kind != "StepLine" else ""
@@ -500,7 +500,7 @@ def rule_keyword_types(rep: Report, rid="C05.types") -> None:
     tree, rv, st = I.run(q)
     selft = ("param", fi.params()[0])
     kw = dict(file=fi.file, line=fi.node.lineno, function=fi.qualname)
-    kt = st.ext.get((selft, "keyword_types")) if st else None
+    kt = st.ext.get((selft, N.KEYWORD_TYPES)) if st else None
     got = []
     if kt is not None and kt[0] == "ref":
         for n, ctx in nf.iter_nodes(tree):
@@ -544,7 +544,7 @@ def rule_keyword_types(rep: Report, rid="C05.types") -> None:
         a = sn[1]
         km = _kw_loop(m, ctx)
         k = km.keyword if km else None
-        types = ("item", ("attr", m.selft, "keyword_types"), k)
+        types = ("item", ("attr", m.selft, N.KEYWORD_TYPES), k)
         want_t = ("cond", ("cmp", "Eq", ("call", "len", (types,), ()), const(1)), ("item", types, const(0)), const("Unknown"))
         rep.ob(rid, "a step keyword's type is its category when it has exactly one, else 'Unknown'", a.get("keyword_type") == want_t,
                **_kw(m, sn[2]), expected=fmt(want_t, I2), found=fmt(a.get("keyword_type"), I2) if a.get("keyword_type") else None)
@@ -555,7 +555,7 @@ def rule_dialect_triple(rep: Report, rid="C05.triple") -> None:
     reset() re-establishes the default through it."""
     f = facts()
     cls = f.cls(MQ)
-    group = {"dialect_name", "dialect", "keyword_types"}
+    group = {N.DIALECT_NAME, N.DIALECT, N.KEYWORD_TYPES}
     writers: dict[str, set] = {a: set() for a in group}
     for c in [cls] + [x for m in f.modules.values() for x in m.classes.values() if cls in x.mro() and x is not cls]:
         for mname, fi in c.methods.items():
@@ -588,7 +588,7 @@ def rule_dialect_triple(rep: Report, rid="C05.triple") -> None:
     ok = bool(raises) and first_set is not None and all(events.index(r) < first_set for r in raises)
     rep.ob(rid, "an unknown dialect raises before any of the three attributes is touched", ok, file=fi.file, line=fi.node.lineno, function=cd,
            expected="raise NoSuchLanguageException first", found=[(e[0], e[1], e[3]) for e in events])
-    dn = st.ext.get((selft, "dialect_name")) if st else None
+    dn = st.ext.get((selft, N.DIALECT_NAME)) if st else None
     rep.ob(rid, "dialect_name is the name that was looked up", dn == ("param", fi.params()[1]), file=fi.file, line=fi.node.lineno, function=cd,
            expected=fi.params()[1], found=fmt(dn, I) if dn else None)
     # reset(): default dialect restored via _change_dialect(default), unconditionally or iff name differs
@@ -610,8 +610,8 @@ def rule_dialect_triple(rep: Report, rid="C05.triple") -> None:
     found = [(fmt(n[1][1], I) if len(n[1]) > 1 else None, [(fmt(a, I), p) for a, p in nf.guards_in_ctx(ctx)]) for n, ctx in calls]
     if len(calls) == 1 and len(calls[0][0][1]) >= 2 and calls[0][0][1][1] == default:
         g = nf.guards_in_ctx(calls[0][1])
-        same = ("cmp", "Eq", ("attr", selft, "dialect_name"), default)
-        same2 = ("cmp", "Eq", default, ("attr", selft, "dialect_name"))
+        same = ("cmp", "Eq", ("attr", selft, N.DIALECT_NAME), default)
+        same2 = ("cmp", "Eq", default, ("attr", selft, N.DIALECT_NAME))
         ok = g == [] or g == [(same, False)] or g == [(same2, False)]
     rep.ob(rid, "reset() restores the default dialect through _change_dialect (always, or exactly when the name differs)", ok,
            file=rfi.file, line=rfi.node.lineno, function=rq, expected="if self.dialect_name != self._default_dialect_name: self._change_dialect(default)",
@@ -984,7 +984,7 @@ def rule_reset(rep: Report, rid="C15.reset", classes=(MQ, "gherkin.token_matcher
             if n[0] == "setattr" and n[1] == selft:
                 gs = nf.guards_in_ctx(ctx)
                 established.setdefault(n[2], []).append((n[3], gs))
-        group = {"dialect_name", "dialect", "keyword_types"}
+        group = {N.DIALECT_NAME, N.DIALECT, N.KEYWORD_TYPES}
         has_cd = any(n[0] == "change_dialect" for n, _ in nf.iter_nodes(tree))
         for a in sorted(written):
             if a in group:
